@@ -377,8 +377,7 @@ func VH_C20_BidSurplus() {
 	tx, err := AcceptBidToBuy1SatOrdinal(ctx, &ValidateBidArgs{OrdinalUTXO: ordUTXO, BidAmount: bid, ExpectedFQ: fq},
 		&AcceptBidArgs{PSTx: pstx, SellerReceiveScript: receive, OrdinalUnlocker: sellerU})
 	if err != nil {
-		vreach("surplus-accept-error")
-		return
+		return // the seller's side refused (fee no longer covered): nothing to check
 	}
 	vassert(len(tx.Inputs) == n+1, "C20: surplus: accepted bid has one input per funding UTXO plus the ordinal")
 	sin, sout := vsums(tx)
